@@ -856,13 +856,185 @@ theorem countBuf_eq (b : Buffer) (c : UInt8) (h : Inv b) : ∀ (k i : Nat), i + 
     rw [List.takeWhile_cons]
     cases hx : (x == c) <;> simp
 
+/-! ### `peek_utf8` over the buffer -/
+
+theorem window_length (b : Buffer) (n : Nat) : (b.window n).length = n := by simp [Buffer.window]
+
+theorem window_getD (b : Buffer) (n i : Nat) (hi : i < n) : (b.window n).getD i 0 = b.peek i := by
+  simp [Buffer.window, List.getD_eq_getElem?_getD, hi]
+
+/-- The window of the memory input over the whole stream is the rest of the stream. -/
+theorem windowBytes_eq (b : Buffer) : windowBytes b.memCtx b.view = b.stream.toList.drop b.view.cur.pos := by
+  unfold windowBytes
+  apply List.take_of_length_le
+  show (b.stream.toList.drop b.view.cur.pos).length ≤ b.stream.size - b.view.cur.pos
+  simp
+
+theorem windowBytes_length (b : Buffer) : (windowBytes b.memCtx b.view).length = b.view.avail := by
+  rw [windowBytes_eq]
+  show _ = b.stream.size - b.view.cur.pos
+  simp
+
+theorem windowBytes_getD (b : Buffer) (i : Nat) : (windowBytes b.memCtx b.view).getD i 0 = b.memCtx.inp.getD (b.view.cur.pos + i) 0 := by
+  rw [windowBytes_eq]
+  show _ = b.stream.getD (b.view.cur.pos + i) 0
+  simp [List.getD_eq_getElem?_getD, Array.getD_eq_getD_getElem?]
+
+/-- `peek_impl` looks at its byte list only through the comparison of its length with the amount it asked for and, when
+    that many bytes are there, through those bytes. -/
+theorem peekImpl_congr (bs bs' : List UInt8) (c0 : Nat)
+    (hl : bs.length ≥ utfNeed c0 ↔ bs'.length ≥ utfNeed c0)
+    (hb : bs.length ≥ utfNeed c0 → ∀ i, i < utfNeed c0 → bs.getD i 0 = bs'.getD i 0) :
+    Utf.peekUtf8Impl bs c0 = Utf.peekUtf8Impl bs' c0 := by
+  unfold Utf.peekUtf8Impl
+  unfold utfNeed at hl hb
+  by_cases h1 : c0 &&& 0xE0 = 0xC0
+  · rw [if_pos h1] at hl hb
+    rw [if_pos h1, if_pos h1]
+    by_cases hge : bs.length ≥ 2
+    · rw [if_pos hge, if_pos (hl.1 hge)]; simp only [hb hge 1 (by omega)]
+    · rw [if_neg hge, if_neg (fun x => hge (hl.2 x))]
+  · rw [if_neg h1] at hl hb
+    rw [if_neg h1, if_neg h1]
+    by_cases h2 : c0 &&& 0xF0 = 0xE0
+    · rw [if_pos h2] at hl hb
+      rw [if_pos h2, if_pos h2]
+      by_cases hge : bs.length ≥ 3
+      · rw [if_pos hge, if_pos (hl.1 hge)]; simp only [hb hge 1 (by omega), hb hge 2 (by omega)]
+      · rw [if_neg hge, if_neg (fun x => hge (hl.2 x))]
+    · rw [if_neg h2] at hl hb
+      rw [if_neg h2, if_neg h2]
+      by_cases h3 : c0 &&& 0xF8 = 0xF0
+      · rw [if_pos h3] at hl hb
+        rw [if_pos h3, if_pos h3]
+        by_cases hge : bs.length ≥ 4
+        · rw [if_pos hge, if_pos (hl.1 hge)]; simp only [hb hge 1 (by omega), hb hge 2 (by omega), hb hge 3 (by omega)]
+        · rw [if_neg hge, if_neg (fun x => hge (hl.2 x))]
+      · rw [if_neg h3, if_neg h3]
+
+theorem peekImpl_none (bs : List UInt8) (c0 : Nat) (h0 : utfNeed c0 = 0) : Utf.peekUtf8Impl bs c0 = none := by
+  unfold utfNeed at h0
+  unfold Utf.peekUtf8Impl
+  split at h0
+  · cases h0
+  · split at h0
+    · cases h0
+    · split at h0
+      · cases h0
+      · rename_i h1 h2 h3
+        rw [if_neg h1, if_neg h2, if_neg h3]
+
+/-- A sequence that `peek_impl` decodes lies within the bytes it was given. -/
+theorem peekImpl_some (bs : List UInt8) (c0 cp n : Nat) (h : Utf.peekUtf8Impl bs c0 = some (cp, n)) : n ≤ bs.length := by
+  unfold Utf.peekUtf8Impl at h
+  simp only at h
+  repeat' split at h
+  all_goals (cases h <;> omega)
+
+/-- `peek_utf8::peek( in )` over the buffer: `overflow_error`, or exactly what it returns over the memory input, the
+    decoded sequence lying within the buffered bytes. -/
+theorem peekUtf8_sim (b : Buffer) (h : Inv b) :
+    match peekUtf8Buf b with
+    | (.overflow, _, b') => Inv b'
+    | (.done, r, b') => Inv b' ∧ b'.memCtx = b.memCtx ∧ b'.view = b.view ∧
+        r = Utf.peekUtf8 (windowBytes b.memCtx b.view) ∧ (∀ cp n, r = some (cp, n) → n ≤ b'.occupied) := by
+  unfold peekUtf8Buf
+  rcases he : b.empty with ⟨o, e, b1⟩
+  cases o with
+  | overflow => simp only; rw [(empty_overflow h he).1]; exact h
+  | done =>
+    obtain ⟨hi, hs, hev, hocc⟩ := empty_done h he
+    have hW : windowBytes b.memCtx b.view = windowBytes b1.memCtx b1.view := by rw [hs.memCtx, hs.view]
+    have hWl := windowBytes_length b1
+    cases e with
+    | true =>
+      simp only
+      refine ⟨hi, hs.memCtx, hs.view, ?_, by intro _ _ hh; cases hh⟩
+      have h0 : b1.view.avail = 0 := by
+        have : b.view.empty = true := hev.symm
+        rw [hs.view]
+        unfold St.empty at this
+        unfold St.avail
+        rw [← hs.view] at this ⊢
+        have := beq_iff_eq.1 this
+        omega
+      rw [hW]
+      have : windowBytes b1.memCtx b1.view = [] := List.eq_nil_of_length_eq_zero (by rw [hWl, h0])
+      rw [this]; rfl
+    | false =>
+      simp only
+      have h1 := hocc rfl
+      have hle1 := hi.occupied_le
+      have hav1 := hi.view_avail
+      have hp0 : (windowBytes b1.memCtx b1.view).getD 0 0 = b1.peek 0 := by
+        rw [windowBytes_getD]; exact (window_bytes hi 0 (by omega)).symm
+      rw [hW]
+      rcases hWe : windowBytes b1.memCtx b1.view with _ | ⟨w0, wt⟩
+      · rw [hWe] at hWl; simp at hWl; omega
+      rw [hWe] at hp0
+      have hw0 : w0 = b1.peek 0 := by simpa using hp0
+      unfold Utf.peekUtf8
+      simp only
+      rw [hw0]
+      by_cases hc : (b1.peek 0).toNat &&& 0x80 = 0
+      · rw [if_pos hc, if_pos hc]
+        exact ⟨hi, hs.memCtx, hs.view, rfl, by intro cp n hh; simp only [Option.some.injEq, Prod.mk.injEq] at hh; omega⟩
+      · rw [if_neg hc, if_neg hc]
+        by_cases hn : utfNeed (b1.peek 0).toNat = 0
+        · rw [if_pos hn]
+          exact ⟨hi, hs.memCtx, hs.view, (peekImpl_none _ _ hn).symm, by intro _ _ hh; cases hh⟩
+        · rw [if_neg hn]
+          rcases hsz : b1.size (utfNeed (b1.peek 0).toNat) with ⟨o2, sz, b2⟩
+          cases o2 with
+          | overflow => simp only; rw [(size_overflow hi hsz).1]; exact hi
+          | done =>
+            obtain ⟨hi2, hm2, hv2, hocc2, hiff, _, _, hrd, _⟩ := size_ctx hi hsz
+            simp only
+            refine ⟨hi2, hm2.trans hs.memCtx, hv2.trans hs.view, ?_, ?_⟩
+            · have hWe' : windowBytes b1.memCtx b1.view = b1.peek 0 :: wt := by rw [hWe, hw0]
+              rw [← hWe']
+              apply peekImpl_congr
+              · rw [window_length, hWl]; exact hiff
+              · rw [window_length]
+                intro hge i hik
+                rw [window_getD _ _ _ (by omega), windowBytes_getD]
+                have := hrd i (by omega)
+                exact (congrArg Prod.fst this).symm
+            · intro cp n hh
+              have := peekImpl_some _ _ _ _ hh
+              rw [window_length] at this
+              omega
+
 /-- Every atom's `match( in )` over the buffer, from any invariant state and whatever the reader's
     schedule: `overflow_error`, or exactly the result and position of the same atom over the memory input. -/
 theorem atom_sim (a : Atom) (b : Buffer) (h : Inv b) (ha : a.overBuffer = true) :
     AtomSim b (atomStepBuf a b) (atomStep b.memCtx a b.view) := by
   have hE : b.memCtx.eol = b.eol := rfl
   cases a with
-  | utf8Range found lo hi => cases ha
+  | utf8Range found lo hi =>
+    simp only [atomStepBuf, atomStep, hE]
+    have := peekUtf8_sim b h
+    revert this
+    rcases peekUtf8Buf b with ⟨o, r, b1⟩
+    cases o with
+    | overflow => intro hh; exact AtomSim.mk_ovf hh
+    | done =>
+      intro hh
+      obtain ⟨hi1, hm, hv, hr, hn⟩ := hh
+      rw [← hr]
+      cases r with
+      | none => exact AtomSim.mk_done hi1 hm (by rw [hv])
+      | some p =>
+        obtain ⟨cp, n⟩ := p
+        simp only
+        have he1 : b1.eol = b.eol := congrArg Ctx.eol hm
+        rw [he1]
+        by_cases hc : (decide (lo ≤ cp ∧ cp ≤ hi) == found) = true
+        · rw [if_pos hc, if_pos hc]
+          obtain ⟨i2, v2, m2⟩ := bumpHelp_spec b1 ((Atom.utf8Range found lo hi).testAny b.eol.ch) n hi1 (hn cp n rfl)
+          exact AtomSim.mk_done i2 (m2.trans hm) (by rw [v2, hm, hv])
+        · rw [if_neg hc, if_neg hc]
+          exact AtomSim.mk_done hi1 hm (by rw [hv])
   | maxDigits mx => cases ha
   | repOne lo hi c =>
     simp only [atomStepBuf, atomStep, hE]
